@@ -17,6 +17,7 @@ import (
 	mrand "math/rand"
 	"net"
 	"os"
+	"sync/atomic"
 	"syscall"
 	"time"
 
@@ -336,12 +337,13 @@ func run(s *scenario) {
 		cutAt = 1 << 30
 	}
 	cutDone := false
+	var hsReturned int32 // the victim's handshake call has returned (and the main flow has taken the result)
 	doCut := func() {
 		if cutDone {
 			return
 		}
 		cutDone = true
-		w.Emit(vt.Ev{"event": "Cut", "kind": s.How, "after": toVictim})
+		w.Emit(vt.Ev{"event": "Cut", "kind": s.How, "after": toVictim, "hs_returned": len(vch) > 0 || atomic.LoadInt32(&hsReturned) == 1})
 		switch s.How {
 		case "err":
 			vraw.DeliverErr(syscall.ECONNRESET)
@@ -394,6 +396,7 @@ func run(s *scenario) {
 			select {
 			case vres = <-vch:
 				vdone = true
+				atomic.StoreInt32(&hsReturned, 1)
 			default:
 			}
 		}
@@ -403,6 +406,7 @@ func run(s *scenario) {
 			select {
 			case vres = <-vch:
 				vdone = true
+				atomic.StoreInt32(&hsReturned, 1)
 			case <-time.After(10 * time.Second):
 				w.Emit(vt.Ev{"event": "Stuck", "where": "handshake after junk and EOF"})
 				return
@@ -460,6 +464,7 @@ func run(s *scenario) {
 		select {
 		case vres = <-vch:
 			vdone = true
+			atomic.StoreInt32(&hsReturned, 1)
 		case <-time.After(15 * time.Second):
 			if s.Kind == "cut" && !cutDone {
 				// the cut position lies beyond what the peer sends during the handshake: cut now
@@ -467,6 +472,7 @@ func run(s *scenario) {
 				select {
 				case vres = <-vch:
 					vdone = true
+					atomic.StoreInt32(&hsReturned, 1)
 				case <-time.After(10 * time.Second):
 				}
 			}
@@ -569,7 +575,7 @@ func run(s *scenario) {
 				vraw.Deliver(b)
 			}
 		}
-		w.Emit(vt.Ev{"event": "Cut", "kind": s.How})
+		w.Emit(vt.Ev{"event": "Cut", "kind": s.How, "hs_returned": true})
 		switch s.How {
 		case "err":
 			vraw.DeliverErr(syscall.ECONNRESET)
@@ -634,7 +640,7 @@ func malformed(s *scenario, pe *peerEnd, vraw *wire.Conn, appRead func() (int, e
 	n, err, pan := appRead()
 	emitRead(n, err, pan)
 	bufEvent()
-	w.Emit(vt.Ev{"event": "Cut", "kind": "eof"})
+	w.Emit(vt.Ev{"event": "Cut", "kind": "eof", "hs_returned": true})
 	vraw.DeliverEOF()
 	for i := 0; i < 50; i++ {
 		n, err, pan := appRead()
